@@ -402,8 +402,8 @@ func (x g) grammar(target string) string {
 func hostile(target string) []string {
 	common := []string{"", " ", "\n", "\x00", "\xff\xfe", "\xc3", "#", "# comment", ".", "!", "(", ")", "[", "]", "{", "}", "\"", "'", "`", "b\"", "\\",
 		"\"\\", "\"\\u", "\"\\u{", "\"\\u{12", "\"\\x", "\"\\x4", "\"\\u{110000}\"", "\"\\u{d800}\"", "\"\\u{ffffff}\"", "b\"\\u{1F600}\"", "\"\\\n\"",
-		strings.Repeat("[", 140), strings.Repeat("(", 140), strings.Repeat("fn:list(", 140), strings.Repeat("[", 140) + strings.Repeat("]", 140),
-		strings.Repeat("{/a:", 100) + "1" + strings.Repeat("}", 100), strings.Repeat(".T<", 100), strings.Repeat("p(", 120) + "X" + strings.Repeat(")", 120), strings.Repeat("a", 5000), strings.Repeat("9", 400), "-", "--1", "-.5", "1.", ".e1", "1e", "⟸", "\u2028"}
+		strings.Repeat("[", 95), strings.Repeat("(", 95), strings.Repeat("fn:list(", 95), strings.Repeat("[", 95) + strings.Repeat("]", 95),
+		strings.Repeat("{/a:", 90) + "1" + strings.Repeat("}", 90), strings.Repeat(".T<", 90), strings.Repeat("p(", 90) + "X" + strings.Repeat(")", 90), strings.Repeat("a", 5000), strings.Repeat("9", 400), "-", "--1", "-.5", "1.", ".e1", "1e", "⟸", "\u2028"}
 	switch target {
 	case tUnit:
 		return append(common,
